@@ -153,6 +153,10 @@ pub mod memmap2 {
         fn deref(&self) -> (r: &[u8]) ensures r@.len() == self@.len { unimplemented!() }
     }
     impl MmapMut {
+        /// msync(MS_ASYNC): schedules write-back; the file's content as seen by read(2) is
+        /// already that of the mapping, so nothing changes in the model
+        #[verifier::external_body]
+        pub fn flush_async(&self) -> (r: crate::shims::std::io::Result<()>) { unimplemented!() }
         #[verifier::external_body]
         pub fn len(&self) -> (r: usize) ensures r == self@.len { unimplemented!() }
         /// (unsafe in memmap2; R9' drops the keyword)  ASSUMED: maps the whole file read/write;
